@@ -51,9 +51,11 @@ export function tsOfProg(p) {
   return `${decls}\nparse.buildParsers<{ ${exps} }>();\n`;
 }
 
+// own data property, whatever the name (`o["__proto__"] = v` would set the prototype instead)
+const setOwn = (o, k, v) => Object.defineProperty(o, k, { value: v, enumerable: true, configurable: true, writable: true });
 // ---------- generator ----------
 const KEYS = ["a", "b", "c", "t", "kind"];
-const ODD_KEYS = ["a-b", "constructor", "toString", "0", "x y"];
+const ODD_KEYS = ["a-b", "constructor", "toString", "0", "x y", "__proto__"];
 const KW = ["string", "number", "boolean", "null", "undefined", "any", "unknown", "bigint"];
 function genLit(rng) {
   switch (rng.below(6)) {
@@ -278,7 +280,7 @@ export function member(rng, p, t, d) {
   const sh = shapeOf(p, t, 0);
   if (sh) {
     const o = {};
-    for (const [k, opt, ty] of sh.props) { if (opt && (rng.chance(1, 3) || d < -2)) continue; o[k] = member(rng, p, ty, d - 1); }
+    for (const [k, opt, ty] of sh.props) { if (opt && (rng.chance(1, 3) || d < -2)) continue; setOwn(o, k, member(rng, p, ty, d - 1)); }
     if (sh.index) for (let i = rng.below(3); i > 0; i--) { const k = isAtom(sh.index[0], "number") ? String(rng.below(5)) : rng.pick(["k1", "k2", "zz"]); if (!(k in o)) o[k] = member(rng, p, sh.index[1], d - 1); }
     if (rng.chance(1, 6)) o.extra = randomValue(rng, 1);
     return o;
@@ -306,7 +308,7 @@ function mutate(rng, v) {
   if (Array.isArray(v)) { const c = v.slice(); if (rng.chance(1, 2)) c.push(randomValue(rng, 1)); else if (c.length) c[rng.below(c.length)] = randomValue(rng, 1); else c.push(1); return c; }
   if (v && typeof v === "object" && Object.getPrototypeOf(v) === Object.prototype) {
     const keys = Object.keys(v), o = { ...v };
-    if (keys.length && rng.chance(2, 3)) { const k = rng.pick(keys); if (rng.chance(1, 2)) delete o[k]; else o[k] = rng.chance(1, 2) ? randomValue(rng, 1) : mutate(rng, o[k]); } else o[rng.pick(KEYS)] = randomValue(rng, 1);
+    if (keys.length && rng.chance(2, 3)) { const k = rng.pick(keys); if (rng.chance(1, 2)) delete o[k]; else setOwn(o, k, rng.chance(1, 2) ? randomValue(rng, 1) : mutate(rng, o[k])); } else o[rng.pick(KEYS)] = randomValue(rng, 1);
     return o;
   }
   return randomValue(rng, 1);
@@ -392,6 +394,15 @@ function withJsdoc(src, rng) { return src.split("\n").map((l) => (/^(type|interf
 export function genRewrite(rng, params) {
   const p = genProg(rng);
   const nvals = Number(params[0] || 12);
+  // twins that differ only in the optionality of an index signature's value (`Record<K, V>` next to `Partial<Record<K, V>>`):
+  // validators the printer hoists and shares must not be shared between the two
+  if (rng.chance(1, 10)) {
+    const key = rng.pick([A("string"), A("string"), [A("tpl"), [A("lit"), "x_"], A("str")]]);
+    const val = rng.chance(1, 2) ? A(rng.pick(["string", "number", "boolean"])) : genLit(rng);
+    const rec = [A("bi"), "Record", key, val], par = [A("bi"), "Partial", [A("bi"), "Record", key, val]];
+    const [x, y] = rng.chance(1, 2) ? [rec, par] : [par, rec];
+    p[2] = [...p[2], ["EH", [A("obj"), [["a", A("false"), x], ["b", A("false"), y]], A("none")]]];
+  }
   const vals = genValues(rng, p, nvals);
   let q = clone(p);
   const script = [];
@@ -486,7 +497,7 @@ function valuesProject(rng) {
 // shapes behind the repaired D86–D89: enums with string-named members, user types called like a built-in used as type
 // arguments next to the built-in, generics that re-instantiate themselves with larger arguments, circles of re-exports
 function oddProject(rng) {
-  switch (rng.below(5)) {
+  switch (rng.below(6)) {
     case 0: {
       const ms = ['"a-b" = "x"', 'B = "y"', '"c d" = 1', "D", 'E = "e"'].filter(() => rng.chance(2, 3));
       if (!ms.length) ms.push('"k-1" = "v"');
@@ -512,6 +523,19 @@ function oddProject(rng) {
       }
       if (rng.chance(1, 3)) files[files.length - 1][1] = rng.pick(["export type X = string;\n", "export const X = 1;\n"]);
       return files;
+    }
+    case 4: {
+      // barrels that `export *` each other in a circle, with the name behind a LATER star of a file on the circle (valid
+      // TypeScript) or nowhere at all; looked up in value and in type position, through every kind of import
+      const where = rng.below(3); // 0: declared in c.ts, 1: nowhere, 2: declared in b.ts (found before the circle closes)
+      const decl = "export const z = { k: 1 } as const;\nexport type Z = { k: string };\n";
+      const a = rng.chance(1, 2) ? 'export * from "./b";\nexport * from "./c";\n' : 'export * from "./c";\nexport * from "./b";\n';
+      const files = [["a.ts", a], ["b.ts", 'export * from "./a";\n' + (where === 2 ? decl : "")], ["c.ts", (rng.chance(1, 3) ? 'export * from "./b";\n' : "") + (where === 0 ? decl : "export type Other = 1;\n")]];
+      const [imp, use] = rng.pick([
+        ['import { z } from "./a";', "typeof z"], ['import * as NS from "./a";', "typeof NS.z"], ["", 'typeof import("./a").z'],
+        ['import { z as y } from "./a";', "{ v: typeof y }"], ['import { Z } from "./a";', "Z"], ['import * as NS from "./a";', "NS.Z"],
+        ['import type { Z } from "./a";', "Z[]"], ['import { nope } from "./a";', "typeof nope"], ['import * as NS from "./a";', "typeof NS"]]);
+      return [["entry.ts", `${imp}\nparse.buildParsers<{ E0: ${use} }>();\n`], ...files];
     }
     default: {
       // (sometimes far beyond any nesting limit: the answer must then be a diagnostic, not an exhausted stack)
@@ -614,6 +638,14 @@ export function gen(rng, params, mode) {
   }
   const p = genProg(rng);
   const nvals = Number(params[0] || 12);
+  // twins that differ only in the optionality of an index signature's value (see genRewrite)
+  if (rng.chance(1, 10)) {
+    const key = rng.pick([A("string"), A("string"), [A("tpl"), [A("lit"), "x_"], A("str")]]);
+    const val = rng.chance(1, 2) ? A(rng.pick(["string", "number", "boolean"])) : genLit(rng);
+    const rec = [A("bi"), "Record", key, val], par = [A("bi"), "Partial", [A("bi"), "Record", key, val]];
+    const [x, y] = rng.chance(1, 2) ? [rec, par] : [par, rec];
+    p[2] = [...p[2], ["EH", [A("obj"), [["a", A("false"), x], ["b", A("false"), y]], A("none")]]];
+  }
   // `typeof` of constant object literals: the program text says `typeof Ck`, the term (what the model and the reference
   // read) carries the type TypeScript infers for it — the literal type of the value the expression evaluates to, with
   // object spread semantics (a later property or spread overwrites an earlier one)
